@@ -11,6 +11,9 @@ EXTRA_IMPORTS = []
 if os.path.exists(os.path.join(L, "OxiddModel", "Reorder", "DriverStore.lean")):
     EXTRA_PROTOS.append(("reorder-store", "OxiddModel.Reorder.SwapStore.proto"))
     EXTRA_IMPORTS.append("OxiddModel.Reorder.DriverStore")
+if os.path.exists(os.path.join(L, "OxiddModel", "Reorder", "DriverStoreC.lean")):
+    EXTRA_PROTOS.append(("reorder-store-bcdd", "OxiddModel.Reorder.SwapStoreC.proto"))
+    EXTRA_IMPORTS.append("OxiddModel.Reorder.DriverStoreC")
 PROTO_NAME = {"Num": "OxiddModel.Num.Driver.proto"}
 src = "import OxiddModel.Util.Proto\n" + "".join(f"import OxiddModel.{a}.Driver\n" for a, _ in have) + "".join(f"import {m}\n" for m in EXTRA_IMPORTS) + '''
 open OxiddModel
